@@ -18,6 +18,9 @@ type Profile struct {
 	Assign   bool // by-construction pattern assignCross: every ASSIGNING form (the ones without var) on a name that an enclosing scope binds, inside every block form, read inside and afterwards (C04); needs HostChan for the receive and gset(&x, v) forms
 	ErrOps   bool // patterns of gen_errops.go (C09): an operand that is not the last one fails inside a compound expression, runtime errors raised by the interpreter's own operations (string repeat overflow, closed channels, ...), a deferred call assigns the typed-slice element / struct field just returned, deferred calls whose arguments are read from slots stored into afterwards (gen_deferargs.go); needs Errors and HostChan
 	CtlVals  bool // patterns of gen_ctlvals.go (C08): for-in over maps whose entries hold values of every class (nil included), functions that return an element or field holding a slice or a map while deferred calls assign it; needs HostChan (the Go struct hbox)
+	ErrFlow  bool // patterns of gen_errflow.go (C09): a catch variable read after a try nested in its catch block bound the same name, a loop header expression (post / condition) that raises after a round that ended with continue; needs Errors, HostChan and ErrOps
+	ModAgain bool // pattern of gen_modagain.go (C04): a module statement for a name that names a module (or a value) in an enclosing scope, inside every block form / function, observed inside and afterwards
+	SwAgain  bool // pattern of gen_switchagain.go (C08): one switch with overlapping case lists run several times by a loop inside one function invocation / at top level
 	MaxDepth int
 	MaxStmts int // statements per block
 }
@@ -254,6 +257,19 @@ func (g *G) stmt(c *gctx) []*N {
 		// after every other option, for the same reason (gen_ctlvals.go)
 		add(4, func() []*N { return g.forinMapEntryClasses(c) })
 		add(3, func() []*N { return g.returnHeldRef(c) })
+	}
+	if P.ErrFlow && !deep {
+		// after every other option, for the same reason (gen_errflow.go)
+		add(16, func() []*N { return g.catchVarNested(c) })
+		add(16, func() []*N { return g.loopHeaderRaises(c) })
+	}
+	if P.ModAgain && !deep {
+		// after every other option, for the same reason (gen_modagain.go)
+		add(30, func() []*N { return g.moduleAgain(c) })
+	}
+	if P.SwAgain && !deep {
+		// after every other option, for the same reason (gen_switchagain.go)
+		add(30, func() []*N { return g.switchAgain(c) })
 	}
 	total := 0
 	for _, o := range opts {
